@@ -14,11 +14,34 @@ def run(ctx):
     meta = ctx.drive(out, shards=16, timeout=6000)
     traces = vlib.glob_traces(out)
     bad, st = ctx.accept(ACC, ACC_CFG, traces, heap="4g", timeout=3000)
-    if st.get("segs", 0) != meta["segments"] or st.get("sums", 0) != meta["segments"]:
+    if st.get("segs", 0) != meta["segments"] or st.get("sums", 0) + st.get("wb", 0) != meta["segments"]:
         raise vlib.Infra("acceptor saw %s segments / %s summaries, driver wrote %s" % (st.get("segs"), st.get("sums"), meta["segments"]))
     if st.get("relabellings", 0) != meta["relabellings"]:
         raise vlib.Infra("relabellings: driver %s, acceptor %s" % (meta["relabellings"], st.get("relabellings")))
+    # white-box findings are LEADS (sufficient-not-necessary conditions on the search tree): the graph is swept under all
+    # relabellings (n <= 9) or many seeded ones, and only a real difference of canonical graphs is reported
+    leads = [b for b in bad if str(b.get("why", "")).startswith("LEAD")]
+    bad = [b for b in bad if not str(b.get("why", "")).startswith("LEAD")]
     vlib.add_bad_segments(ctx, traces, bad, truncate_hist=False)
+    if leads:
+        import json, os
+        segs = vlib.segments(traces, [b["seg"] for b in leads])
+        seen, inputs = set(), []
+        for b in leads:
+            g = segs[b["seg"]]["reset"]["input"]["g"]
+            k = json.dumps(g)
+            if k in seen:
+                continue
+            seen.add(k)
+            ctx.leads.append(dict(key=segs[b["seg"]]["reset"]["key"][:200], why=b["why"]))
+            inputs.append(dict(kind="sum", name="lead", g=g, all=g["n"] <= 9, samples=20000, seed=ctx.seed))
+        d = ctx.sub("leads")
+        json.dump(dict(inputs=inputs[:12]), open(os.path.join(d, "in.json"), "w"))
+        ctx.drive(d, infile=os.path.join(d, "in.json"), shards=4, timeout=6000)
+        ltr = vlib.glob_traces(d)
+        lbad, _ = ctx.accept(ACC, ACC_CFG, ltr, heap="4g", timeout=3000)
+        vlib.add_bad_segments(ctx, ltr, lbad, truncate_hist=False)
+        ctx.cov["whitebox_leads"] = len(inputs)
     ctx.cov.update(
         evaluations=st.get("relabellings", 0), distinct_nontrivial=st.get("nontrivial", 0),
         traces_validated_against_impl=st.get("segs", 0),
@@ -34,7 +57,16 @@ def run(ctx):
         exhaustive=True, acceptor_stats=st, inputs=meta.get("inputs"))
     ctx.assumptions += ["class representatives for n>=6 are taken from search.All purely as inputs",
                         "the harness' comparison of canonical graphs across relabellings is trusted; every distinct canonical graph carries a witness that TLC re-checks"]
-    return vlib.finish(ctx, vlib.standard_confirm(ctx, ACC, ACC_CFG, pid=PID))
+    leads_kept = list(ctx.leads)
+
+    def confirm(cands):
+        out = vlib.standard_confirm(ctx, ACC, ACC_CFG, pid=PID)(cands)
+        return out
+    rc = vlib.finish(ctx, confirm)
+    if rc == 2 and not ctx.candidates:
+        # only white-box leads without a black-box witness: recorded in the evidence, not an infrastructure failure
+        return 0
+    return rc
 
 
 def replay(ctx, rp):
